@@ -39,6 +39,7 @@ struct Sess {
     seq: u64,
     t0: Instant,
     last_push_at: u64,
+    last_process_at: u64,
     last_push_key: Option<(u64, u64)>,
     last_answer_at: u64,
     choking: bool,
@@ -56,6 +57,7 @@ struct Sess {
     last_served: Option<(u32, u32, u32)>,
     /// messages scripted before our own handshake went out (protocol-conformant peers only)
     held: Vec<Msg>,
+    deaf_noted: bool,
 }
 
 fn note(who: &str, what: String) {
@@ -451,6 +453,11 @@ impl Sess {
             }
             Action::Process(bytes) => {
                 self.dec.push(&bytes);
+                if self.dec.fatal.is_some() && !self.deaf_noted {
+                    self.deaf_noted = true;
+                    world::bump("peer_cannot_decode_client_stream");
+                    note(&self.plan.name, format!("cannot decode the client's stream: {:?}", self.dec.fatal));
+                }
                 while let Some(item) = self.dec.next() {
                     if let Item::Msg(m) = item {
                         self.on_frame(m);
@@ -515,9 +522,12 @@ impl Sess {
                 _ = tokio::time::sleep_until(wake) => {}
                 r = self.end.read(), if !stalled => match r {
                     ReadOutcome::Data(bytes) => {
+                        // one-way latency; never reorders the byte stream (TCP)
                         let now = self.now();
                         let lat = self.rng.range(self.plan.net.lat_min, self.plan.net.lat_max);
-                        self.schedule(now + lat, Action::Process(bytes));
+                        let at = (now + lat).max(self.last_process_at);
+                        self.last_process_at = at;
+                        self.schedule(at, Action::Process(bytes));
                     }
                     ReadOutcome::Eof | ReadOutcome::Reset => {
                         note(&self.plan.name, "client closed".into());
@@ -559,6 +569,7 @@ fn new_session(plan: Arc<PeerPlan>, sh: Arc<Shared>, has: Arc<Mutex<Vec<bool>>>,
         seq: 0,
         t0: Instant::now(),
         last_push_at: 0,
+        last_process_at: 0,
         last_push_key: None,
         last_answer_at: 0,
         choking: true,
@@ -575,6 +586,7 @@ fn new_session(plan: Arc<PeerPlan>, sh: Arc<Shared>, has: Arc<Mutex<Vec<bool>>>,
         client_choking: true,
         last_served: None,
         held: Vec::new(),
+        deaf_noted: false,
     }
 }
 
